@@ -7,6 +7,9 @@ parameter values) parsing the key/value pairs written by `Display` returns the c
 The splitting/escaping of the string and the text form of scalars are serde_urlencoded's / std's
 (hypothesis: they invert each other on these ASCII keys and values); the suite `c09_query` runs the
 real axum extractor, serde_urlencoded and serde_json on every combination.
+The same hypothesis for the JSON form (`PrepareQuery` body, `RouteParams::extra`) needs serde_json's
+`float_roundtrip` feature — enabled by the fix C09-JSON-F64 and pinned by the translator item
+`wire.serde_json_float_roundtrip`; `json_roundtrip` states the consequence for the scalar codec as a parameter.
 -/
 namespace IpaVerif.C09
 open IpaVerif.QueryString
@@ -24,6 +27,24 @@ theorem querystring_roundtrip (c : QueryConfig) (h : c.Valid) : fromPairs (toPai
        obtain ⟨mbk, dp, eps, pm⟩ := p
        obtain ⟨hm, hd⟩ := h2
        cases pm <;> simp [fromPairs, toPairs, getNat, getStr, lookup, fieldName, queryTypeStr, hs, hsz, hm, hd])
+
+/-- JSON form: a configuration whose scalars are written by `print` and read by `parse` comes back unchanged as soon
+as `parse ∘ print = some` on the epsilon token (what `float_roundtrip` provides; without it `parse (print x)` could be a
+neighbouring double, `json_roundtrip_unfixed_counterexample`). The other fields are integers/enums/booleans. -/
+theorem json_roundtrip {F T : Type} (print : F → T) (parse : T → Option F)
+    (h : ∀ x, parse (print x) = some x) (mbk dp : Nat) (eps : F) (pm : Bool) :
+    (parse (print eps)).map (fun e => (mbk, dp, e, pm)) = some (mbk, dp, eps, pm) := by
+  rw [h]; rfl
+
+/-- the defect before the fix, in miniature: a reader that is one unit off on some printed value does not return the
+configuration (`Nat` stands for the bit pattern of the double; 0x402e70fe1300d65a is 15.220688432552539, which
+serde_json without `float_roundtrip` read back as 0x402e70fe1300d65b). -/
+theorem json_roundtrip_unfixed_counterexample :
+    let parseOff : Nat → Option Nat := fun n => some (if n = 0x402e70fe1300d65a then n + 1 else n)
+    (parseOff (id 0x402e70fe1300d65a)).map (fun e => (5, 1, e, false)) ≠ some (5, 1, 0x402e70fe1300d65a, false) := by
+  decide
+
+example : ∀ x : Nat, (fun n : Nat => some n) (id x) = some x := fun _ => rfl
 
 /-- sizes outside 1..=10^9 are rejected whatever the rest says -/
 theorem querystring_rejects_bad_size (ps : Pairs) (n : Nat) (h : lookup ps "size" = some (.nat n))
